@@ -54,7 +54,12 @@ TVStep == /\ l <= Len(Rec) /\ Rec[l].ev = "step"
 TVOther == /\ l <= Len(Rec) /\ Rec[l].ev \in {"end", "threads", "stress"} /\ l' = l + 1
            /\ viol' = IF Rec[l].ev = "stress" /\ Rec[l].lost > 0 THEN AddViol(viol, {"C15/concurrent-writers-lost-a-bit"}, cur) ELSE viol
            /\ UNCHANGED <<table, late, logOn, judged, cur, dead>>
-TVNext == TVReset \/ TVStep \/ TVOther
+\* the process under test was killed by a signal while this case ran (recorded by the driver; `begin` marks the letter that
+\* was in progress): judged like any other observation -- whatever the property, an input that kills the process breaks it
+TVCrashAny == /\ l <= Len(Rec) /\ Rec[l].ev \in {"crash", "begin"}
+              /\ viol' = IF Rec[l].ev = "crash" THEN AddViol(viol, {"ANY/process-killed-by-signal-" \o Str(Rec[l].signal)}, Rec[l].id) ELSE viol
+              /\ l' = l + 1 /\ UNCHANGED <<table, late, logOn, judged, cur, dead>>
+TVNext == TVReset \/ TVStep \/ TVOther \/ TVCrashAny
 TVSpec == TVInit /\ [][TVNext]_tvars
 Post == PostOK
 Report == ReportAt(l, judged, viol)
